@@ -479,6 +479,12 @@ func (p *Parser) parseDict() (core.Object, error) {
 			break
 		}
 
+		// The data may end in the white space that was just skipped
+		// (a dictionary that is never closed)
+		if p.pos >= len(p.data) {
+			break
+		}
+
 		// Parse key (must be a name)
 		if p.data[p.pos] != '/' {
 			return nil, fmt.Errorf("dictionary key must be a name")
